@@ -1,4 +1,10 @@
 ---------------------------- MODULE Gen_Sessions ----------------------------
 EXTENDS Sessions, Json
 Emit == (Len(hist) = MaxOps) => PrintT(<<"BEHAVIOUR", ToJson(hist)>>)
+(* a restart in the middle: three steps, the restart, three more *)
+RestartNext == /\ Len(hist) < MaxOps
+               /\ \/ (Len(hist) < 3 /\ Next /\ hist'[Len(hist')].op # "Restart")
+                  \/ (Len(hist) = 3 /\ Restart)
+                  \/ (Len(hist) > 3 /\ Next)
+RestartSpec == Init /\ [][RestartNext]_vars
 =============================================================================
